@@ -17,8 +17,12 @@
    compiler state both entry points return code or a refusal
    ([C05_no_input_makes_the_compiler_panic]).  That the real parser and resolver
    agree with the models is compared on every run; the shape is also evaluated
-   on every resolved tree of the run (chk_wfb).  NOT proved: that the compiled code keeps the VM away
-   from its internal faults; the check decides that on adversarial generated
+   on every resolved tree of the run (chk_wfb).  (3) For the while-language over
+   globals (C01: expression statements, assignments, blocks, if, if/else, while)
+   the compiled code keeps the VM model away from every internal fault: with
+   any fuel, Run ends with a value, a runtime error or out-of-fuel, never
+   Abort ([C05_statement_runs_never_abort]).  NOT proved: the same for calls,
+   closures and generators; the check decides that on adversarial generated
    programs run on the real code (a recovered Go panic or a hang is a
    violation) and compares with the VM model, in which every internal fault of
    vm.go / memory.go / bytecoder.go is the Abort outcome. *)
@@ -88,3 +92,29 @@ Theorem C05_no_input_makes_the_compiler_panic : forall input l,
     (forall w, ByteCode r s <> CompAbort w) /\ (forall w, ByteCodeNoStck r s <> CompAbort w).
 Proof. exact no_input_makes_the_compiler_panic. Qed.
 Print Assumptions C05_no_input_makes_the_compiler_panic.
+
+(* ---- the while-language over globals: compiled code never drives the VM into a fault ---- *)
+Require Import Calc.ExprSem Calc.ExprVM Calc.ExprCorrect Calc.ExprTop Calc.ExprAssign Calc.ExprSession
+        Calc.StmtSem Calc.StmtCorrect Calc.StmtTop.
+
+Theorem C05_statement_runs_never_abort : forall t s s' v c m n G' res fuel,
+  wstmt t = true -> ExprCorrect.wfcs s -> idle v s c m ->
+  ByteCode t s = CompOk s' ->
+  ssem n (v_globals v) t = Some (G', res) ->
+  match snd (Run fuel (load_code v s') true) with
+  | RAbort _ => False
+  | RExit _ => False
+  | _ => True
+  end.
+Proof.
+  intros t s s' v c m n G' res fuel Hw Hwf Hid HB HM.
+  destruct (bytecode_run_stmt t s s' v c m n G' res Hw Hwf Hid HB HM) as [_ [k R]].
+  destruct (R fuel) as [Rle Rgt].
+  destruct (Nat.lt_ge_cases k fuel) as [Hlt|Hge].
+  - specialize (Rgt Hlt). destruct res as [x|err].
+    + destruct Rgt as [v' [m' [E _]]]. rewrite E. exact I.
+    + destruct Rgt as [me [rep E]]. rewrite E. exact I.
+  - destruct (Rle Hge) as [F|Rl]; [rewrite F; exact I|].
+    destruct res as [x|err]; [contradiction|]. destruct Rl as [me [rep E]]. rewrite E. exact I.
+Qed.
+Print Assumptions C05_statement_runs_never_abort.
